@@ -99,7 +99,9 @@ func TestC06(t *testing.T) {
 	})
 	// literal forms: the operands are written into the expression
 	runProp(t, "literals", 48000, 300000, func(t *rapid.T) {
-		lits := []string{"0", "1", "2", "5", "2.5", "0.5", ".5", "3", "10", "0.1", "7.25", "1000000000000000000000", "0.000001"}
+		lits := []string{"0", "1", "2", "5", "2.5", "0.5", ".5", "3", "10", "0.1", "7.25", "1000000000000000000000", "0.000001",
+			// beyond the double range: the nearest IEEE value is an infinity (or zero)
+			"1" + strings.Repeat("0", 320), "17976931348623157" + strings.Repeat("0", 292) + "9", "0." + strings.Repeat("0", 330) + "1", strings.Repeat("9", 400) + ".9"}
 		lit := func(label string) *xast.Expr {
 			e := xast.Num(lits[rapid.IntRange(0, len(lits)-1).Draw(t, label)])
 			if rapid.IntRange(0, 3).Draw(t, label+"Neg") == 0 {
